@@ -309,6 +309,11 @@ class Path_(str):
     """the path string: endswith works as on str"""
 
 
+def _label(j):
+    """legend texts as GROMACS may write them: plain, padded with blanks, and a twin that differs from another legend only by a trailing blank"""
+    return (f"legend text {j}", f" legend text {j} ", f"legend text {j - 2} ")[j % 3] if j >= 2 else f"legend text {j}"
+
+
 def xvg_shapes(tier):
     out = []
 
@@ -373,7 +378,7 @@ def run_xvg(shape):
     eng.assume_global(*pre)
     prover = Prover(timeout_ms=10000, budget_s=600)
     acc = Acc(shape)
-    labels = [f"legend text {j}" for j in range(H)]
+    labels = [_label(j) for j in range(H)]
     path_name = "energy.xvg"
 
     def mklines():
@@ -558,7 +563,7 @@ def replay_xvg(cex):
     at = []
     for j in range(h, H):
         if m.get(f"leg{j}") is True:
-            at.append((int(fval(m, f"idx{j}", 0)), f"legend text {j}"))
+            at.append((int(fval(m, f"idx{j}", 0)), _label(j)))
         else:
             at.append(None)
     if sum(1 for a in at if a is not None) != nl or h > 13 or H < 13:
